@@ -205,6 +205,7 @@ func (un *Unit) execInstr(fr *Frame, st *State, in ssa.Instruction) {
 		v := Val{t: ref, fn: fn, binds: binds}
 		un.closures[ref] = v
 		un.bind(fr, in, v)
+		un.attrFacts(ref, fn, binds, st, fr)
 	case *ssa.MakeInterface:
 		x := un.val(fr, in.X)
 		un.bind(fr, in, un.makeIface(st, x, in.X.Type()))
@@ -402,7 +403,10 @@ func (un *Unit) execUnOp(fr *Frame, st *State, in *ssa.UnOp) {
 			v = n
 		}
 		if !p.local {
-			un.assume(st, un.typeFacts(st, v, et))
+			un.nextOverride = un.boundOf(st, p.comp)
+			tf := un.typeFacts(st, v, et)
+			un.nextOverride = ""
+			un.assume(st, tf)
 		}
 		out := Val{t: v}
 		if cl, ok := un.closures[v]; ok {
